@@ -28,6 +28,7 @@ TOL_DB = 1e-7      # predicates: absolute tolerance on dB values
 
 _NC = [0]
 _NS = [0]
+_NO = [0]
 
 
 def natlit(n):
@@ -356,6 +357,18 @@ def make_out(rng, tier):
         img = np.round(rng.integers(-3000, 3001, size=(Ks, Kt, T)) * gains[..., None]).astype(dt)
         noi = rng.integers(-100, 101, size=(Kt, T)).astype(dt)
         kind = 'pcm-' + np.dtype(dt).name
+    _NO[0] += 1
+    if kind == 'random' and _NO[0] % 5 == 0:
+        # more outputs than sources, and a loud source leaks so strongly into a spare output that this output carries more
+        # total image power than the output holding a quiet source
+        Ks = 2; Kt = int(rng.integers(3, 5)); T = int(rng.integers(32, 200))
+        gains = np.full((Ks, Kt), 0.1) * rng.uniform(0.5, 1.5, size=(Ks, Kt))
+        o = rng.permutation(Kt)
+        gains[0, o[0]] = 10.0; gains[0, o[2]] = 9.0           # loud source: own output o[0], spare output o[2]
+        gains[1, o[1]] = 1.0                                   # quiet source: own output o[1]
+        img = rng.normal(size=(Ks, Kt, T)) * gains[..., None] * 10.0 ** rng.uniform(-2, 2)
+        noi = rng.normal(size=(Kt, T)) * 1e-2 * np.abs(img).mean()
+        kind = 'leaky-spare'
     rp = {'fn': 'output_sxr', 'image_contribution': img, 'noise_contribution': noi,
           'average_sources': bool(rng.random() < 0.5), 'return_dict': _rd_pick(rng), 'c': _scale(rng), 'c2': _scale(rng)}
     fail, key, coq = eval_out(rp)
